@@ -174,6 +174,8 @@ def run(ctx):
                     a_side = bool((y.locals & sa.locals) - sb.locals) or bool((y.fields & sa.fields) - sb.fields)
                     if b_side and a_side and r in ('<=', '<', '=='):
                         why = 'b <= a established at line %s' % cm.line
+            if why is None and ({'Add', 'AddWithOverflow'} & sa.ops) and ((lib.root_of(f, pb.l) | {pb.l}) & sa.locals):
+                why = 'the minuend was formed by adding this very value (a = x + b)'
             if why:
                 ctx.ok('SUB-C22c', f, 'a - b with b from %s: %s' % (src, why), line=st.get('l'))
             else:
